@@ -178,3 +178,14 @@ Lemma buffer_address_refetch_refuted :
   | _ => False
   end.
 Proof. vm_compute. split; [reflexivity|]. intros [H|H]; [discriminate | apply H; reflexivity]. Qed.
+
+Lemma usp_cell_checked sc total size cell m t v m' t' :
+  vrun sc (usp_cell total size cell) m t = Ok (v, m', t') -> v = 0 \/ v + size <= total.
+Proof.
+  unfold usp_cell. intros H.
+  apply rd_bytes_inv in H as (bs & L & H). cbn [rev app] in H.
+  destruct (le4 bs =? 0) eqn:E.
+  - cbn [vrun] in H. inversion H. left. reflexivity.
+  - cbn [vrun] in H. destruct (le4 bs + size <=? total) eqn:C; [|discriminate].
+    cbn [vrun] in H. inversion H; subst. right. apply Z.leb_le. exact C.
+Qed.
